@@ -13,6 +13,19 @@ def has_neg(prql):
     return "(-(" in prql
 
 
+def folded_null_comparison(prql):
+    """`==` / `!=` with an operand that is a column-free expression mentioning null but is not the literal `null`
+    (e.g. `(null ?? null) == x`): the compiler folds the operand to NULL and then reads the comparison as IS [NOT] NULL"""
+    for m in re.finditer(r"\(([^()]*)\)", prql):
+        inner = m.group(1)
+        if "null" not in inner or inner.strip() == "null" or re.search(r"[A-Za-z_]", inner.replace("null", "")):
+            continue
+        before, after = prql[:m.start()].rstrip(), prql[m.end():].lstrip()
+        if before.endswith("==") or before.endswith("!=") or after.startswith("==") or after.startswith("!="):
+            return True
+    return False
+
+
 def takes_across_sort_before_group(pg):
     """two takes with a sort between them, and a group / window over groups later on"""
     ks = pg.kinds()
@@ -78,6 +91,8 @@ def classify_common(rec):
         m = re.search(r"no such column: (\w+)\.(\w+)", str(rec.get("sqlite")))
         if m and re.search(r"ORDER BY [^()]*\b%s\.%s\b" % (re.escape(m.group(1)), re.escape(m.group(2))), sql):
             return "C07-N1-order-by-inner-relation"
+    if v == "rows" and folded_null_comparison(rec["prql"]) and " IS " in sql:
+        return "F49r-folded-null-comparison"
     if v == "rows" and rec["program"].meta.get("nested_group"):
         return "F45-nested-group-partition"
     if v == "rows" and " INTERSECT " in sql and any(st.info.get("alljoin") and st.info.get("side") == "Inner" for st in rec["program"].steps):
@@ -124,6 +139,10 @@ def directed_known(rng=None):
         S("take", "take 3", "TTake None (Some (3))", rng=(None, 3)),
         S("distinct", "group {a} (take 1)", "TDistinct", nkeys=1)], False, ["a"], {"let_at": 1}),
         {"t": [[1, 1, 0, 0, 0], [2, 1, 0, 0, 0], [3, 1, 0, 0, 0], [4, 2, 0, 0, 0], [5, 3, 0, 0, 0]], "u": [[1, 0, 0, 0]]}))
+    # F49r: a comparison with a column-free operand that folds to null is read as IS NULL
+    out.append(("F49r-folded-null-comparison", P.Program([
+        S("filter", "filter ((null ?? null) == (a - null))", "TFilter (EBin Eq (EBin Coalesce (ELit VNull) (ELit VNull)) (EBin Sub (%s) (ELit VNull)))" % col("a")),
+        sel(["id", "a"])], False, ["id", "a"])))
     # F32: a group key defined as an integer literal
     out.append(("F32-group-by-constant", P.Program([
         S("derive", "derive {k9 = 2}", "TDerive [(Some %d%%N, ELit (VInt 2))]" % n("k9")),
